@@ -311,9 +311,11 @@ def replay(scn, steps, inputs, kind, hang_s=3.0, total_s=30.0, verbose=False):
         elif kind == 'fail':
             st = result.get('status')
             out['observed'] = f'driver: {st}' if st else 'driver did not finish'
-            out['reproduced'] = bool(st) and scn.is_fail('main', st) and ctl.diverged is None
-            if not out['reproduced'] and ctl.uncaught:
-                out['observed'] += f' uncaught={ctl.uncaught!r}'
+            bad_threads = [(n, f'{type(e).__name__}: {e}') for n, e in ctl.uncaught
+                           if scn.is_fail(n, ('raised', f'{type(e).__name__}: {e}'))]
+            if bad_threads:
+                out['observed'] += f'; threads ended by an uncaught exception: {bad_threads!r}'
+            out['reproduced'] = ((bool(st) and scn.is_fail('main', st)) or bool(bad_threads)) and ctl.diverged is None
         elif kind == 'invariant':
             snap = getattr(ctl, 'end_snapshot', None)
             ok = scn.concrete_invariant(snap) if snap is not None else True
